@@ -471,4 +471,121 @@ theorem cntCopy_writes (name : Bytes) : ∀ fuel bs,
         · simp [hn, writesOf, writesOf_append, ih rest, List.filter_cons]
         · simp [hn, writesOf, ih rest, List.filter_cons]
 
+/-! ### the six updaters -/
+
+inductive Updater
+  | dynAdded (r : DynRec)
+  | dynDeleted (name : Bytes)
+  | obsAdded (r : ObsRec)
+  | obsDeleted (key : Nat)
+  | cntTrack (r : CntRec)
+  | cntDeleted (name : Bytes)
+
+def Updater.file : Updater → FileId
+  | .dynAdded _ | .dynDeleted _ => .dyn
+  | .obsAdded _ | .obsDeleted _ => .obs
+  | .cntTrack _ | .cntDeleted _ => .cnt
+
+/-- the stdio / rename calls the updater makes when it finds the file system `fs` -/
+def Updater.ops (fs : FS) : Updater → List Op
+  | .dynAdded r => Persist.dynAdded fs r
+  | .dynDeleted n => Persist.dynDeleted fs n
+  | .obsAdded r => Persist.obsAdded fs r
+  | .obsDeleted k => Persist.obsDeleted fs k
+  | .cntTrack r => Persist.cntTrack fs r
+  | .cntDeleted n => Persist.cntDeleted fs n
+
+theorem dynAdded_frame (fs : FS) (r : DynRec) :
+    Persist.dynAdded fs r = frame .dyn ((if exists? fs (main .dyn) then
+      dynCopy r.name ((content fs (main .dyn)).length + 1) (content fs (main .dyn)) else []) ++
+      writesTo (tmp .dyn) (dynWrites r)) (exists? fs (main .dyn)) := by
+  simp [Persist.dynAdded, frame, List.append_assoc]
+
+theorem obsAdded_frame (fs : FS) (r : ObsRec) :
+    Persist.obsAdded fs r = frame .obs ((if exists? fs (main .obs) then
+      obsCopy r.key ((content fs (main .obs)).length + 1) (content fs (main .obs)) else []) ++
+      writesTo (tmp .obs) (obsWrites r)) (exists? fs (main .obs)) := by
+  simp [Persist.obsAdded, frame, List.append_assoc]
+
+theorem cntTrack_frame (fs : FS) (r : CntRec) :
+    Persist.cntTrack fs r = frame .cnt ((if exists? fs (main .cnt) then
+      cntCopy r.name ((content fs (main .cnt)).length + 1) (content fs (main .cnt)) else []) ++
+      [fwrite (tmp .cnt) (encCnt r)]) (exists? fs (main .cnt)) := by
+  simp [Persist.cntTrack, frame, List.append_assoc]
+
+theorem dynDeleted_frame (fs : FS) (n : Bytes) (h : exists? fs (main .dyn) = true) :
+    Persist.dynDeleted fs n = frame .dyn (dynCopy n ((content fs (main .dyn)).length + 1) (content fs (main .dyn))) true := by
+  simp [Persist.dynDeleted, frame, h, List.append_assoc]
+
+theorem obsDeleted_frame (fs : FS) (k : Nat) (h : exists? fs (main .obs) = true) :
+    Persist.obsDeleted fs k = frame .obs (obsCopy k ((content fs (main .obs)).length + 1) (content fs (main .obs))) true := by
+  simp [Persist.obsDeleted, frame, h, List.append_assoc]
+
+theorem cntDeleted_frame (fs : FS) (n : Bytes) (h : exists? fs (main .cnt) = true) :
+    Persist.cntDeleted fs n = frame .cnt (cntCopy n ((content fs (main .cnt)).length + 1) (content fs (main .cnt))) true := by
+  simp [Persist.cntDeleted, frame, h, List.append_assoc]
+
+theorem body_added_dyn (fs : FS) (r : DynRec) : ∀ op ∈ (if exists? fs (main .dyn) then
+      dynCopy r.name ((content fs (main .dyn)).length + 1) (content fs (main .dyn)) else []) ++
+      writesTo (tmp .dyn) (dynWrites r), Body .dyn op := by
+  intro op h
+  simp only [List.mem_append] at h
+  rcases h with h | h
+  · split at h
+    · exact dynCopy_body _ _ _ op h
+    · simp at h
+  · exact writesTo_body _ _ op h
+
+theorem body_added_obs (fs : FS) (r : ObsRec) : ∀ op ∈ (if exists? fs (main .obs) then
+      obsCopy r.key ((content fs (main .obs)).length + 1) (content fs (main .obs)) else []) ++
+      writesTo (tmp .obs) (obsWrites r), Body .obs op := by
+  intro op h
+  simp only [List.mem_append] at h
+  rcases h with h | h
+  · split at h
+    · exact obsCopy_body _ _ _ op h
+    · simp at h
+  · exact writesTo_body _ _ op h
+
+theorem body_track_cnt (fs : FS) (r : CntRec) : ∀ op ∈ (if exists? fs (main .cnt) then
+      cntCopy r.name ((content fs (main .cnt)).length + 1) (content fs (main .cnt)) else []) ++
+      [fwrite (tmp .cnt) (encCnt r)], Body .cnt op := by
+  intro op h
+  simp only [List.mem_append] at h
+  rcases h with h | h
+  · split at h
+    · exact cntCopy_body _ _ _ op h
+    · simp at h
+  · simp at h; subst h; rfl
+
+theorem single_open_shape (F : FileId) : Shape F [fopen (main F) .r] :=
+  ⟨[fopen (main F) .r], by intro op h; simp at h; subst h; trivial, Or.inl rfl⟩
+
+theorem updater_shape (u : Updater) (fs : FS) : Shape u.file (u.ops fs) := by
+  cases u with
+  | dynAdded r =>
+    simp only [Updater.ops, Updater.file]; rw [dynAdded_frame]
+    exact frame_shape _ _ _ (body_of_safe_copy (body_added_dyn fs r))
+  | obsAdded r =>
+    simp only [Updater.ops, Updater.file]; rw [obsAdded_frame]
+    exact frame_shape _ _ _ (body_of_safe_copy (body_added_obs fs r))
+  | cntTrack r =>
+    simp only [Updater.ops, Updater.file]; rw [cntTrack_frame]
+    exact frame_shape _ _ _ (body_of_safe_copy (body_track_cnt fs r))
+  | dynDeleted n =>
+    simp only [Updater.ops, Updater.file]
+    cases h : exists? fs (main .dyn) with
+    | true => rw [dynDeleted_frame fs n h]; exact frame_shape _ _ _ (body_of_safe_copy (dynCopy_body _ _ _))
+    | false => simp only [Persist.dynDeleted, h]; exact single_open_shape _
+  | obsDeleted k =>
+    simp only [Updater.ops, Updater.file]
+    cases h : exists? fs (main .obs) with
+    | true => rw [obsDeleted_frame fs k h]; exact frame_shape _ _ _ (body_of_safe_copy (obsCopy_body _ _ _))
+    | false => simp only [Persist.obsDeleted, h]; exact single_open_shape _
+  | cntDeleted n =>
+    simp only [Updater.ops, Updater.file]
+    cases h : exists? fs (main .cnt) with
+    | true => rw [cntDeleted_frame fs n h]; exact frame_shape _ _ _ (body_of_safe_copy (cntCopy_body _ _ _))
+    | false => simp only [Persist.cntDeleted, h]; exact single_open_shape _
+
 end Coap.Persist
